@@ -36,6 +36,7 @@ type vrtRun struct {
 	SchedLen  int     `json:"sched_len"`
 	Desync    bool    `json:"sched_desync"`
 	Trace     []int   `json:"sched_trace,omitempty"`
+	SpinCPUms int     `json:"spin_cpu_ms"`
 }
 
 var vrtS *vrtRun
